@@ -247,7 +247,7 @@ def run(tier, seed, replay=None):
     # After every successful step the outputs must be exactly what a fresh generation of the current source with the current
     # options writes into an empty directory (same binary), and an output whose bytes did not change keeps inode and mtime.
     STEPS = ("regenerate", "touch", "edit-constant", "edit-dynamic", "edit-callback", "introduce-error", "delete-header", "delete-ui",
-             "toggle-no-dynamic", "make-static", "make-dynamic")
+             "toggle-no-dynamic", "make-static", "make-dynamic", "chmod-outputs", "chmod-source")
     n_hist = 8 if tier == "quick" else 80
     for k in range(n_hist):
         opts_o = rng.choice(([], [], ["-O", "out"]))
@@ -281,6 +281,13 @@ def run(tier, seed, replay=None):
                 cur["static"] = False
             elif kind == "toggle-no-dynamic":
                 nodyn = not nodyn
+            elif kind == "chmod-outputs":
+                # the build tree was made read-only / a checkout flipped a mode bit: the content is still up to date
+                for o in outs:
+                    if os.path.exists(os.path.join(outdir, o)):
+                        os.chmod(os.path.join(outdir, o), rng.choice((0o444, 0o600, 0o664, 0o755)))
+            elif kind == "chmod-source":
+                os.chmod(src, rng.choice((0o444, 0o600, 0o664, 0o755, 0o644)))
             elif kind in ("delete-header", "delete-ui"):
                 victim = os.path.join(outdir, outs[1] if kind == "delete-header" else outs[0])
                 if os.path.exists(victim):
@@ -288,7 +295,9 @@ def run(tier, seed, replay=None):
             if kind == "introduce-error":
                 open(src, "w").write(ERROR_QML % "\"e\"")
                 broken = True
-            elif kind != "touch":
+            elif kind not in ("touch", "chmod-outputs", "chmod-source"):
+                if not os.access(src, os.W_OK):
+                    os.chmod(src, 0o644)
                 open(src, "w").write(text_of_cur())
                 broken = False
             opts = opts_o + (["--no-dynamic-binding"] if nodyn else [])
